@@ -246,6 +246,8 @@ BODY_B = {
     "b12": ['"Hp"', ("diagonal", '"A"'), ("lower", '-"A".adj'), '"Hp @ A"'],
     "b13": ['-(-"Hp" - "Hp @ A") / -2', ("offdiagonal", '"Hp" if flags[index[1]] else zero')],
 }
+# a second input series (its name is substituted for IN2): used as start value and in the body
+BODY_B2 = {"b14": ['"IN2" - "Hp" / 2', ("diagonal", '"IN2"')]}
 K3_BODY = {"k3a": [("diagonal", 'f("Hp")')], "k3b": [("diagonal", '"Hp" + f("B")'), ("offdiagonal", '"Hp"')]}
 STARTS_A = [0, 1, "H_0", None]
 MARKERS = [None, "hermitian", "antihermitian"]
@@ -299,6 +301,11 @@ def grammar_cases(tier):
                                         continue
                                     out.append(dict(kind="grammar", sizes=list(sizes), k=k, sA=sA, mA=mA, bA=bA, sB=sB, bB=bB,
                                                     ret=list(ret)))
+    # two input series; the second one has a name ending in characters of "_0_data" / a digit / an underscore
+    for in2 in ("Ha", "delta", "V_0", "H2", "Hp_", "X"):
+        for sB in (in2 + "_0", 0):
+            for bA in ("a1", "a2"):
+                out.append(dict(kind="grammar", sizes=[1, 2], k=1, sA=0, mA=None, bA=bA, sB=sB, bB="b14", ret=["A", "B"], in2=in2))
     # the input series itself is a factor of a declared product / used directly, and is given as data only
     for bA, bB in (("a1", "b9"), ("a11", "b1"), ("a11", "b9"), ("a2", "b8"), ("a7", "b9")):
         for sA in (0, 1):
@@ -339,8 +346,20 @@ def run_grammar(case):
     nb = len(sizes)
     k = case["k"]
     bodyA = BODY_A.get(case["bA"]) or K3_BODY[case["bA"]]
-    src = render(case["sA"], case["mA"], bodyA, case["sB"], BODY_B[case["bB"]], case["ret"])
+    src = render(case["sA"], case["mA"], bodyA, case["sB"], (BODY_B | BODY_B2)[case["bB"]], case["ret"])
+    in2 = case.get("in2")
+    if in2:
+        src = src.replace("IN2", in2)
     Hv, E, off = make_H(nb, k, sizes)
+
+    def Hv2(idx):
+        """Second input: 3 H + 1 on the diagonal blocks of order zero, -2 H elsewhere."""
+        v = Hv(idx)
+        if v is zero:
+            return zero
+        if sum(idx[2:]) == 0:
+            return 3 * v + np.eye(v.shape[0])
+        return -2 * v
 
     def is_series(x):
         return isinstance(x, BlockSeries) or getattr(x, "is_series_proxy", False)
@@ -361,7 +380,7 @@ def run_grammar(case):
 
     scope = {"f": f, "g": g, "flagT": True, "flagF": False, "flags": [True, False, True, False]}
     bound = (2,) if k == 1 else (1, 1)
-    ref = Interp(src, {"H": Hv}, scope, nb, k, zero, one, Dagger)
+    ref = Interp(src, {"H": Hv, in2: Hv2} if in2 else {"H": Hv}, scope, nb, k, zero, one, Dagger)
     names = ref.names()
     elements = [(name, idx) for name in names for idx in itertools.product(range(nb), range(nb), *[range(b + 1) for b in bound])]
     # reference values (or not-well-founded marks)
@@ -406,8 +425,11 @@ def run_grammar(case):
                 # a data-only input series (nothing can be recomputed): the caller's elements must survive
                 given = {idx: Hv(idx) for idx in itertools.product(range(nb), range(nb), *[range(b + 1) for b in bound])}
                 H = BlockSeries(data=given, shape=(nb, nb), n_infinite=k, name="H")
+            inputs_ = {"H": H}
+            if in2:
+                inputs_[in2] = BlockSeries(eval=lambda *idx: Hv2(idx), shape=(nb, nb), n_infinite=k, name=in2)
             try:
-                series, _ = series_computation({"H": H}, algorithm=func, scope=dict(scope))
+                series, _ = series_computation(inputs_, algorithm=func, scope=dict(scope))
             except Exception as e:  # noqa: BLE001
                 V.append(f"series_computation raises {type(e).__name__}: {str(e)[:100]}")
                 break
